@@ -110,7 +110,7 @@ typedef struct {
 
 #define FixedOrderCnt 10
 #define CtRegCnt      29
-#define FPUOpCnt      47
+#define FPUOpCnt      49
 #define PMMURegCnt    13
 
 #define EMACAvailName "HASEMAC"
@@ -6343,6 +6343,8 @@ static void InitFields(void) {
     AddFPUOp("FDABS", 0x5c, False, eFlagIntFPU);
     AddFPUOp("FCOSH", 0x19, False, eFlagExtFPU);
     AddFPUOp("FNEG", 0x1a, False, eFlagNone);
+    AddFPUOp("FSNEG", 0x5a, False, eFlagIntFPU);
+    AddFPUOp("FDNEG", 0x5e, False, eFlagIntFPU);
     AddFPUOp("FACOS", 0x1c, False, eFlagExtFPU);
     AddFPUOp("FCOS", 0x1d, False, eFlagExtFPU);
     AddFPUOp("FGETEXP", 0x1e, False, eFlagExtFPU);
